@@ -205,7 +205,8 @@ def build_harness(rundir, race=False, tags=()):
     return out, p.stdout
 
 
-EXTRA_EXTRACTORS = [("factx_frames", "Frames.lean"), ("factx_access", "Access.lean")]
+# (directory under go/, generated file, "stdout" = prints the file | "file" = takes the output path as 2nd argument)
+EXTRA_EXTRACTORS = [("factx_frames", "Frames.lean", "stdout"), ("factx_access", "Access.lean", "file")]
 
 
 def build_factx(rundir):
@@ -229,7 +230,7 @@ def run_factx(rundir):
     ok = p.returncode == 0
     logs = [p.stdout]
     # stand-alone extractors (one generated file each, printed to stdout)
-    for d, outname in EXTRA_EXTRACTORS:
+    for d, outname, style in EXTRA_EXTRACTORS:
         src = os.path.join(VERIF, "go", d)
         if not os.path.isdir(src):
             continue
@@ -239,11 +240,19 @@ def run_factx(rundir):
             ok = False
             logs.append("%s build failed:\n%s" % (d, b.stdout))
             continue
+        if style == "file":
+            r = subprocess.run([xb, REPO, os.path.join(tmp, outname)], stdout=subprocess.PIPE, stderr=subprocess.STDOUT, text=True, timeout=300)
+            if r.returncode != 0:
+                ok = False
+                logs.append("%s: %s" % (d, r.stdout[-1500:]))
+                if os.path.exists(os.path.join(tmp, outname)):
+                    os.remove(os.path.join(tmp, outname))
+            continue
         r = subprocess.run([xb, REPO], stdout=subprocess.PIPE, stderr=subprocess.PIPE, text=True, timeout=300)
         if r.returncode != 0:
             ok = False
             logs.append("%s: %s" % (d, r.stderr[-1500:]))
-        if r.stdout.strip():
+        elif r.stdout.strip():
             open(os.path.join(tmp, outname), "w").write(r.stdout)
     with Lock("lake"):
         os.makedirs(gen, exist_ok=True)
